@@ -9,7 +9,7 @@ EXTENDS Archive, Json
 CONSTANT Depth
 
 VARIABLES hist, init0
-mcvars == <<mode, v, last, steps, hist, init0>>
+mcvars == <<mode, v, last, steps, capn, hist, init0>>
 
 MCInit == /\ Init
           /\ hist = <<>>
